@@ -19,10 +19,10 @@
 using namespace sim;
 
 enum { ST_RUNS, ST_OPS, ST_RT_DISPATCH, ST_RT_DIRECT, ST_ALLOC_OUTSIDE, F_OVERSIZE_MSG, F_OVERSIZE_REPLY, F_RING_FULL, F_NO_MATCH, F_WRONG_TYPE,
-       P_HASHED, P_LINEAR, P_ENUM, P_NESTED3, P_DEFAULT_HANDLER, P_NOLOC, P_MACRO_SET, P_MACRO_QUERY, P_REPLY_FWD, P_BUNDLE, P_MATCH, P_ITER, P_LINK, ST_N };
+       P_HASHED, P_LINEAR, P_ENUM, P_NESTED3, P_DEFAULT_HANDLER, P_NOLOC, P_MACRO_SET, P_MACRO_QUERY, P_REPLY_FWD, P_BUNDLE, P_MATCH, P_ITER, P_LINK, P_WIDE, ST_N };
 static const char *STAT_NAMES[ST_N] = { "runs", "ops", "rt_dispatches", "rt_direct_calls", "allocator_calls_outside_rt", "fault.message_larger_than_maxmsg", "fault.reply_larger_than_8192", "fault.ring_full", "fault.message_matches_nothing", "fault.wrong_argument_types",
        "probe.hashed_table_dispatch", "probe.linear_fallback_dispatch", "probe.enumerated_port_dispatch", "probe.three_level_dispatch", "probe.default_handler", "probe.dispatch_without_location", "probe.macro_port_set", "probe.macro_port_query",
-       "probe.reply_forwarded_to_link", "probe.bundle_built_and_read", "probe.pattern_match", "probe.iterator", "probe.private_link_cycle" };
+       "probe.reply_forwarded_to_link", "probe.bundle_built_and_read", "probe.pattern_match", "probe.iterator", "probe.private_link_cycle", "probe.variadic_message_over_32_values" };
 
 // ---- extra port trees -------------------------------------------------------------------------------------------
 struct Counter { int hits = 0; int last = 0; };
@@ -98,7 +98,7 @@ struct RtWorld : World {
         for (int i = 0; i < n; i++) { Op o; double u = pr.unit();
             if (u < 0.5) { o.kind = UI_SEND; o.a[0] = pr.below(M_NKINDS); o.a[1] = (int64_t)pr.below(100000); o.a[2] = pr.below(3); }
             else if (u < 0.8) { o.kind = RT_TICK; o.a[0] = 1 + pr.below(6); }
-            else if (u < 0.95) { o.kind = RT_DIRECT; o.a[0] = pr.below(8); }
+            else if (u < 0.95) { o.kind = RT_DIRECT; o.a[0] = pr.below(8); o.a[1] = pr.chance(0.5) ? 28 + pr.below(10) : pr.below(65); o.a[2] = pr.below(8); }
             else o.kind = UI_DRAIN;
             p.push_back(o); }
     }
@@ -149,7 +149,7 @@ struct RtWorld : World {
             } else if (op.kind == UI_DRAIN) { int g = 0; while (b2u->hasNext() && g++ < 64) b2u->read(); }
             else {
                 // ---------------- realtime section ----------------
-                uint64_t disp = 0, direct = 0; int probes[24] = {0};
+                uint64_t disp = 0, direct = 0; int probes[32] = {0};
                 {
                     rtmon::RtSection section;
                     if (op.kind == RT_TICK) {
@@ -167,7 +167,13 @@ struct RtWorld : World {
                     } else {
                         direct++; char buf[512]; int w = (int)(((op.a[0] % 8) + 8) % 8);
                         switch (w) {
-                        case 0: rtosc_message(buf, sizeof buf, "/many", "iiiiiiiiiiiiiiiiiiiiffffssss", 1,2,3,4,5,6,7,8,9,10,11,12,13,14,15,16,17,18,19,20, 1.0,2.0,3.0,4.0, "a","b","c","d");
+#define V64 1,2,3,4,5,6,7,8,9,10,11,12,13,14,15,16,17,18,19,20,21,22,23,24,25,26,27,28,29,30,31,32,33,34,35,36,37,38,39,40,41,42,43,44,45,46,47,48,49,50,51,52,53,54,55,56,57,58,59,60,61,62,63,64
+                        case 0: { /* a variadic message with 0..64 values (64 are passed, the type string says how many are taken), some with value-less tags in between */
+                                char wide[140]; int nv = (int)(((op.a[1] % 65) + 65) % 65), wl = 0; for (int i = 0; i < nv; i++) { wide[wl++] = 'i'; if ((op.a[2] & 3) == 3 && i % 7 == 3) wide[wl++] = 'T'; } wide[wl] = 0;
+                                rtosc_message(buf, sizeof buf, "/wide", wide, V64); rtosc_message(nullptr, 0, "/wide", wide, V64); priv->write("/wide", wide, V64); while (priv->hasNext()) priv->read();
+                                { RtOut dw(b2u, true); dw.obj = rig; dw.reply("/wide", wide, V64); dw.broadcast("/wide", wide, V64); }
+                                if (nv > 32) probes[P_WIDE]++; }
+                                rtosc_message(buf, sizeof buf, "/many", "iiiiiiiiiiiiiiiiiiiiffffssss", 1,2,3,4,5,6,7,8,9,10,11,12,13,14,15,16,17,18,19,20, 1.0,2.0,3.0,4.0, "a","b","c","d");
                                 priv->write("/w", "iiiiiiiiiiiiiiiiiiii", 1,2,3,4,5,6,7,8,9,10,11,12,13,14,15,16,17,18,19,20); while (priv->hasNext()) priv->read();
                                 rtosc_message(buf, sizeof buf, "/x/y", "ifs", 1, 2.0, "three"); rtosc_message(buf, 8, "/too/long/for/eight", "i", 1); rtosc_message(nullptr, 0, "/size", "sb", "q", 3, "abc"); break;
                         case 1: { rtosc_arg_t a[3]; a[0].i = 1; a[1].s = "s"; a[2].b.len = 2; a[2].b.data = (uint8_t *)"xy"; rtosc_amessage(buf, sizeof buf, "/arr", "isb", a); rtosc_arg_val_t av[2]; av[0].type = 'i'; av[0].val.i = 3; av[1].type = 'T'; av[1].val.T = 1; rtosc_avmessage(buf, sizeof buf, "/av", 2, av); break; }
